@@ -414,18 +414,37 @@ func ruleC06Ctor(w *World, r *Report) {
 		r.bad("R06.4", fn, "network and broadcast address are trimmed", w.Pos(f.Pos()), "NewIPPool no longer stores list[1:len-1]: the first (network) and last (broadcast) element of the enumeration stay in the pool, or are removed by a computation this rule cannot follow")
 		return
 	}
+	// "the list" is what the enumeration's append extends: the pool field itself, read back on every step
+	// (`p.freePool = append(p.freePool, ip)`), or a local that starts empty and is carried round the loop —
+	// in SSA the φ of the loop header, whose value once the loop is left is the complete enumeration.
+	isList := func(v ssa.Value) bool { return loadsField(v, "freePool") }
+	if acc, ok := app.Call.Args[0].(*ssa.Phi); ok && acc.Block() == hdr {
+		carried := true
+		for k, e := range acc.Edges {
+			fromLoop := hdr.Dominates(hdr.Preds[k]) // a back edge; the other edges enter the loop
+			switch {
+			case fromLoop && e == ssa.Value(app):
+			case !fromLoop && isEmptyList(e):
+			default:
+				carried = false
+			}
+		}
+		if carried {
+			isList = func(v ssa.Value) bool { return v == ssa.Value(acc) }
+		}
+	}
 	lo, loK := constInt(trim.Low)
 	hiOK := false
 	if bo, ok := trim.High.(*ssa.BinOp); ok && bo.Op == token.SUB {
 		if k, isK := constInt(bo.Y); isK && k == 1 {
 			if c, ok := bo.X.(*ssa.Call); ok {
-				if b, isB := c.Call.Value.(*ssa.Builtin); isB && b.Name() == "len" && loadsField(c.Call.Args[0], "freePool") {
+				if b, isB := c.Call.Value.(*ssa.Builtin); isB && b.Name() == "len" && isList(c.Call.Args[0]) {
 					hiOK = true
 				}
 			}
 		}
 	}
-	r.check(loK && lo == 1 && hiOK && loadsField(trim.X, "freePool"), "R06.4", fn, "the pool is list[1 : len-1]", w.Pos(trim.Pos()), "drops first and last", "the trim is not [1:len-1] of the enumerated list")
+	r.check(loK && lo == 1 && hiOK && isList(trim.X), "R06.4", fn, "the pool is list[1 : len-1]", w.Pos(trim.Pos()), "drops first and last", "the trim is not [1:len-1] of the enumerated list")
 	g := onlyVia(f, trimStore, func(a, b *ssa.BasicBlock) bool {
 		x, op, y, ok := edgeFact(a, b)
 		if !ok {
@@ -458,6 +477,18 @@ func ruleC06Ctor(w *World, r *Report) {
 			r.check(instrDominates(trimStore, ret), "R06.4", fn, "a pool is returned only after the trim", w.Pos(ret.Pos()), "dominated", "a pool can be returned untrimmed")
 		}
 	}
+}
+
+// isEmptyList: a nil slice or a make of length 0.
+func isEmptyList(v ssa.Value) bool {
+	if isNilConst(v) {
+		return true
+	}
+	if mk, ok := v.(*ssa.MakeSlice); ok {
+		k, isK := constInt(mk.Len)
+		return isK && k == 0
+	}
+	return false
 }
 
 // loadsField: v is a load of <something>.<field>.
